@@ -19,7 +19,7 @@ MIN_EVENTS = {"absolute-range fits judged": 300,
               "relative-cp fits judged": 150, "plateau fits judged": 100,
               "interval bounds placed on sample abscissae": 200}
 TIMEOUT = {"quick": 900, "thorough": 3500}
-N_CASES = {"quick": 110, "thorough": 2400}     # per shard
+N_CASES = {"quick": 110, "thorough": 6000}     # per shard
 RULE = ("case = (curve, segment, interval with bounds drawn from the sample "
         "abscissae / inverted / one-sided infinite / disjoint / zero width, "
         "range type absolute | relative cp | plateau search, sample count "
